@@ -16,7 +16,8 @@ META = dict(
     bounds="values: all encodings satisfying the invariant (about 12*2^11*12+2 per label), three labels per call (reference, two estimates); "
            "mirex: 6 symbolic bitmap positions per encoding per job, windows swept over the 12 semitones (np.nonzero forks per bit)",
     stubs=["chord.validate (no-op) and chord.encode_many (returns any triple satisfying Inv: root in 0..11, bits in {0,1}, "
-           "bitmap[bass]=1; N=(-1,0^12,-1); X=(-1,(-1)^12,-1)); Inv itself is an obligation of C10 on the real encode"],
+           "bitmap[bass]=1; N=(-1,0^12,-1); X=(-1,(-1)^12,-1)); Inv itself is an obligation of C10 on the real encode; with "
+           "reduce_extended_chords=True the stub returns a second, independent bitmap that contains the plain one (degrees above the octave folded in)"],
     assumptions=["every Inv-satisfying encoding is produced by a real label (constructive: the replay builds that label)"],
 )
 
@@ -28,6 +29,7 @@ IMPL = [('tetrads_inv', 'tetrads'), ('tetrads', 'triads'), ('triads', 'thirds'),
 
 ROOTS = ['C', 'C#', 'D', 'Eb', 'E', 'F', 'F#', 'G', 'Ab', 'A', 'Bb', 'B']
 DEGS = ['1', 'b2', '2', 'b3', '3', '4', 'b5', '5', 'b6', '6', 'b7', '7']
+XDEGS = ['8', 'b9', '9', '#9', '10', '11', '#11', '12', 'b13', '13', '#13', '##13']      # semitones 12..23
 Q = {k: list(v) for k, v in CH.QUALITIES.items()}
 
 _TABLE = {}
@@ -38,11 +40,12 @@ def _stub_validate(a, b):
 
 
 def _stub_encode_many(labels, reduce_extended_chords=False):
+    """every label has two bitmaps: the plain one and the one with extended degrees (9, 11, 13 ...) folded into the octave"""
     roots, bms, basses = [], [], []
     for l in labels:
-        r, bm, b = _TABLE[l]
+        r, bm, b, xbm = _TABLE[l]
         roots.append(r)
-        bms.append(list(bm))
+        bms.append(list(xbm if reduce_extended_chords else bm))
         basses.append(b)
     return S.array(roots), S.array(bms), S.array(basses)
 
@@ -56,8 +59,11 @@ def sym_encoding(ctx, name, fixed_bits=None):
     bass = ctx.integer(name + '_bass')
     kind = ctx.integer(name + '_kind')       # 0 regular, 1 N, 2 X
     bits = []
+    xbits = []
     for i in range(12):
         bits.append(ctx.integer('%s_b%d' % (name, i)))
+        # the bitmap under reduce_extended_chords=True: the plain bitmap plus any pitch classes contributed by degrees above the octave
+        xbits.append(ctx.integer('%s_x%d' % (name, i)))
     c = ctx
     c.assume(kind >= 0)
     c.assume(kind <= 2)
@@ -68,6 +74,8 @@ def sym_encoding(ctx, name, fixed_bits=None):
             inv.append(bits[i] == fixed_bits[i])
         else:
             inv.append(S._lor(bits[i] == 0, bits[i] == 1))
+    for i in range(12):
+        inv.append(S._lor(xbits[i] == 1, S._land(xbits[i] == 0, bits[i] == 0)))
     anyb = False
     for i in range(12):
         anyb = S._lor(anyb, S._land(bass == i, bits[i] == 1))
@@ -81,12 +89,12 @@ def sym_encoding(ctx, name, fixed_bits=None):
     for x in [root == -1, bass == -1]:
         isN = S._land(isN, x)
         isX = S._land(isX, x)
-    for b in bits:
+    for b in bits + xbits:
         isN = S._land(isN, b == 0)
         isX = S._land(isX, b == -1)
     c.assume(S._lor(S._lnot(kind == 1), isN))
     c.assume(S._lor(S._lnot(kind == 2), isX))
-    return dict(root=root, bits=bits, bass=bass, kind=kind)
+    return dict(root=root, bits=bits, bass=bass, kind=kind, xbits=xbits)
 
 
 def label_of(enc):
@@ -97,6 +105,9 @@ def label_of(enc):
     if k == 2:
         return 'X'
     degs = [DEGS[i] for i in range(1, 12) if int(enc['bits'][i]) == 1]
+    # pitch classes present only under reduce_extended_chords: written as degrees above the octave
+    xb = enc.get('xbits') or enc['bits']
+    degs += [XDEGS[i] for i in range(12) if int(xb[i]) == 1 and int(enc['bits'][i]) == 0]
     b = int(enc['bass'])
     if int(enc['bits'][0]) == 1:
         lab = ROOTS[int(enc['root'])] + ':(' + ','.join(['1'] + degs) + ')'
@@ -113,7 +124,7 @@ def _labels(A, encs):
         out = []
         for i, e in enumerate(encs):
             tok = 'ENC%d' % i
-            _TABLE[tok] = (e['root'], e['bits'], e['bass'])
+            _TABLE[tok] = (e['root'], e['bits'], e['bass'], e['xbits'])
             out.append(tok)
         return out
     return [label_of(e) for e in encs]
@@ -155,7 +166,7 @@ def job_lattice(with_mirex=False, window=None):
         if A.sym:
             _TABLE.clear()
             for tok, e in (('R', r), ('E1', e1), ('E2', e2)):
-                _TABLE[tok] = (e['root'], e['bits'], e['bass'])
+                _TABLE[tok] = (e['root'], e['bits'], e['bass'], e['xbits'])
             refs, ests = ['R', 'R', 'R'], ['E1', 'E2', 'R']
         out = {}
         rules = ['tetrads', 'mirex'] if with_mirex else RULES
@@ -216,10 +227,14 @@ def job_real_labels():
             elif l == 'X':
                 ok = ok and (root, bm, bass) == (-1, [-1] * 12, -1)
             else:
+                bmx = [int(x) for x in CH.encode(l, True)[1]]
                 ok = ok and 0 <= root <= 11 and 0 <= bass <= 11 and bm[bass] == 1 and set(bm) <= {0, 1}
-                enc = dict(kind=0, root=root, bits=bm, bass=bass)
+                # the bitmap under reduce_extended_chords contains the plain one
+                ok = ok and set(bmx) <= {0, 1} and all(x >= y for x, y in zip(bmx, bm))
+                enc = dict(kind=0, root=root, bits=bm, bass=bass, xbits=bmx)
                 r2, bm2, b2 = CH.encode(label_of(enc))
-                rt = rt and (r2, [int(x) for x in bm2], b2) == (root, bm, bass)
+                bmx2 = [int(x) for x in CH.encode(label_of(enc), True)[1]]
+                rt = rt and (r2, [int(x) for x in bm2], b2) == (root, bm, bass) and bmx2 == bmx
         A.observe('n', len(inp['pool']))
         A.require(ok, 'real-encode:Inv-on-label-pool')
         A.require(rt, 'real-encode:label_of-round-trip')
